@@ -81,4 +81,22 @@ void use() { OwnerImplicit a; OwnerImplicit b(a); b = a; Good g; Good g2(g); g2 
   OwnerCloneFirst c1; OwnerCloneFirst c2(c1); c2 = c1; OwnerNoGuard n1; OwnerNoGuard n2(n1); n2 = n1;
   OwnerAlias a1; OwnerAlias a2(a1); a2 = a1; OwnerKeeps k1; OwnerKeeps k2(k1); k2 = k1;
   OwnerMoveLeaves m1; OwnerMoveLeaves m2(std::move(m1)); m2 = m1; }
+
+// R5 / R6 controls
+struct Layer {
+    Layer() : inner_pdu_(0) {}
+    ~Layer() { delete inner_pdu_; }
+    Layer* inner_pdu() const { return inner_pdu_; }
+    Layer* release_inner_pdu() { Layer* r = inner_pdu_; inner_pdu_ = 0; return r; }
+    void drop_good() { delete inner_pdu_; inner_pdu_ = 0; }
+    void drop_leaks() { inner_pdu_ = 0; }                           // R5 positive: old target leaked
+    Layer* inner_pdu_;
+};
+inline void borrowed_ok(Layer* t) { Layer* raw = t->inner_pdu(); if (raw) { t->release_inner_pdu(); delete raw; } }
+inline void borrowed_bad(Layer* t, bool keep) {                     // R6 positive: deleted while t still owns it
+    Layer* raw = t->inner_pdu();
+    if (keep) { t->release_inner_pdu(); }
+    else { delete raw; }
+}
+inline void use_them() { Layer l; l.drop_good(); l.drop_leaks(); borrowed_ok(&l); borrowed_bad(&l, true); }
 }
